@@ -742,3 +742,50 @@ pub fn c16(rep: &mut Rep, seed: u64) {
     }
     panic::set_hook(prev);
 }
+
+// ------------------------------------------------------------------------------------------------ C02
+/// the crate's result against the reference evaluation of the equations (refimpl.rs), over the text cases, the seeded buildings and a
+/// stride of the enumerated small buildings x the four regulatory factor sets and two user files with pairwise different factors
+/// x k_exp in {0, 0.3, 1} x both load-matching modes
+pub fn c02(rep: &mut Rep, seed: u64) {
+    let user_files = [
+        "ELECTRICIDAD, RED, SUMINISTRO, A, 0.41, 1.95, 0.33\nELECTRICIDAD, INSITU, SUMINISTRO, A, 1.0, 0.0, 0.0\nELECTRICIDAD, INSITU, A_RED, A, 0.9, 0.1, 0.01\nELECTRICIDAD, INSITU, A_NEPB, A, 0.8, 0.2, 0.02\nELECTRICIDAD, INSITU, A_RED, B, 0.5, 2.1, 0.4\nELECTRICIDAD, INSITU, A_NEPB, B, 0.45, 2.2, 0.43\n\
+         GASNATURAL, RED, SUMINISTRO, A, 0.005, 1.19, 0.25\nGASOLEO, RED, SUMINISTRO, A, 0.003, 1.18, 0.31\nGLP, RED, SUMINISTRO, A, 0.03, 1.2, 0.254\nCARBON, RED, SUMINISTRO, A, 0.002, 1.08, 0.47\nBIOMASA, RED, SUMINISTRO, A, 1.03, 0.034, 0.018\nBIOMASADENSIFICADA, RED, SUMINISTRO, A, 1.028, 0.085, 0.018\nBIOCARBURANTE, RED, SUMINISTRO, A, 1.028, 0.085, 0.018\n\
+         RED1, RED, SUMINISTRO, A, 0.2, 1.1, 0.21\nRED2, RED, SUMINISTRO, A, 0.6, 0.7, 0.11\n\
+         EAMBIENTE, RED, SUMINISTRO, A, 1.0, 0.0, 0.0\nEAMBIENTE, INSITU, SUMINISTRO, A, 1.0, 0.0, 0.0\nEAMBIENTE, INSITU, A_RED, A, 0.95, 0.05, 0.004\nEAMBIENTE, INSITU, A_NEPB, A, 0.85, 0.15, 0.006\nEAMBIENTE, INSITU, A_RED, B, 0.3, 0.9, 0.2\nEAMBIENTE, INSITU, A_NEPB, B, 0.25, 0.8, 0.19\n\
+         TERMOSOLAR, RED, SUMINISTRO, A, 1.0, 0.0, 0.0\nTERMOSOLAR, INSITU, SUMINISTRO, A, 1.0, 0.0, 0.0\nTERMOSOLAR, INSITU, A_RED, A, 0.97, 0.03, 0.003\nTERMOSOLAR, INSITU, A_NEPB, A, 0.87, 0.13, 0.005\nTERMOSOLAR, INSITU, A_RED, B, 0.33, 0.93, 0.23\nTERMOSOLAR, INSITU, A_NEPB, B, 0.28, 0.83, 0.22",
+        "ELECTRICIDAD, RED, SUMINISTRO, A, 0.5, 2.0, 0.42\nELECTRICIDAD, INSITU, A_RED, B, 0.1, 2.5, 0.5\nELECTRICIDAD, INSITU, A_NEPB, B, 0.7, 1.5, 0.1\nGASNATURAL, RED, SUMINISTRO, A, 0.0, 1.1, 0.22\nGASOLEO, RED, SUMINISTRO, A, 0.0, 1.3, 0.3\nGLP, RED, SUMINISTRO, A, 0.0, 1.25, 0.26\nCARBON, RED, SUMINISTRO, A, 0.0, 1.1, 0.5\nBIOMASA, RED, SUMINISTRO, A, 1.0, 0.1, 0.07\nBIOMASADENSIFICADA, RED, SUMINISTRO, A, 1.0, 0.2, 0.08\nBIOCARBURANTE, RED, SUMINISTRO, A, 1.0, 0.3, 0.09\nEAMBIENTE, RED, SUMINISTRO, A, 1.0, 0.0, 0.0\nTERMOSOLAR, RED, SUMINISTRO, A, 1.0, 0.0, 0.0",
+    ];
+    let mut sets: Vec<(String, Factors)> = ["PENINSULA", "BALEARES", "CANARIAS", "CEUTAMELILLA"].iter().map(|l| (l.to_string(), crate::factors(l))).collect();
+    for (i, u) in user_files.iter().enumerate() {
+        match cte::wfactors_from_str(u, UserWF { red1: Some(RenNrenCo2::new(0.3, 0.9, 0.2)), red2: None }, cte::CTE_USERWF) {
+            Ok(w) => sets.push((format!("user file {}", i + 1), w)),
+            Err(e) => rep.fail("C02.factor_file", u, format!("user factor file rejected: {}", e)),
+        }
+    }
+    let mut texts: Vec<String> = crate::gen::extras().iter().map(|s| s.to_string()).collect();
+    texts.extend(crate::gen::random_texts(seed, crate::preds::scale()));
+    for (i, b) in crate::gen::singles().iter().enumerate() { if i % 7 == 3 { let t = crate::gen::text(&[*b]); if !t.is_empty() { texts.push(t); } } }
+    for m in crate::gen::multis(seed, crate::preds::scale() / 3) { texts.push(crate::gen::text(&m)); }
+    for (ti, t) in texts.iter().enumerate() {
+        let comps: Components = match t.parse() { Ok(c) => c, Err(_) => continue };
+        for (si, (sname, w)) in sets.iter().enumerate() {
+            // every building with two of the six sets in turn (all six for the hand-written ones), every k_exp and mode
+            if ti >= 20 && (ti + si) % 3 != 0 { continue; }
+            for k in [0.0f32, 0.3, 1.0] {
+                for lm in [false, true] {
+                    let area = if (ti + si) % 2 == 0 { 1.0 } else { 37.5 };
+                    rep.evals += 1;
+                    let ep = match energy_performance(&comps, w, k, area, lm) { Ok(e) => e, Err(_) => continue };
+                    let r = match crate::refimpl::evaluate(&comps, w, k as f64, lm) { Ok(r) => r, Err(e) => { rep.fail("C02.reference", t, format!("{}: the crate returns a result where the equations cannot be evaluated: {}", sname, e)); continue } };
+                    rep.nontrivial += 1;
+                    let mag: f64 = ep.balance_cr.values().map(|b| (b.used.epus_an + b.used.nepus_an + b.used.cgnus_an + b.prod.an) as f64).sum();
+                    if let Some(what) = crate::refimpl::compare(&ep, &r, 3e-6 * mag) {
+                        rep.fail("C02.equations", t, format!("{}, k_exp {}, area {}, load matching {}: {}", sname, k, area, lm, what));
+                    }
+                }
+            }
+        }
+        if ti % 97 == 5 && rep.samples.len() < 4 { rep.samples.push(json!({"components": t})); }
+    }
+}
